@@ -138,11 +138,44 @@ class C06(Prop):
         return self._T
 
     # ------------------------------------------------------------------ generation
+    HISTORIES = [("fresh", 35), ("dump-first", 20), ("load-first", 15), ("fail-repair", 10), ("dump-fail-repair", 10), ("two-corruptions", 10)]
+
+    def history(self, rng, fmt, spec, mod, T):
+        """the SEQUENCE of calls on ONE object: validation state hidden in the objects (memoised validate(), flags set by an earlier
+        dump or load) is only exercised when the corrupted object has a past"""
+        D, M, U, L = {"do": "dumps"}, {"do": "mod", "mod": mod}, {"do": "undo"}, {"do": "reload"}
+        r = rng.randrange(100)
+        acc = 0
+        name = "fresh"
+        for nm, w in self.HISTORIES:
+            acc += w
+            if r < acc:
+                name = nm
+                break
+        if name == "fresh":
+            return name, [M, D]
+        if name == "dump-first":
+            return name, [D, M, D]
+        if name == "load-first":
+            return name, [D, L, M, D]
+        if name == "fail-repair":
+            return name, [M, D, U, D]
+        if name == "dump-fail-repair":
+            return name, [D, M, D, U, D]
+        mod2, _ = propose(fmt, spec, rng, T)
+        if mod2 is None or (mod2.get("path"), mod2.get("set")) == (mod.get("path"), mod.get("set")):
+            return "fail-repair", [M, D, U, D]
+        return name, [M, D, U, {"do": "mod", "mod": mod2}, D]
+
+    def mk(self, fmt, spec, steps, tag, hist):
+        return {"op": "c06", "args": {"fmt": fmt, "spec": spec, "steps": steps, "mods": [s["mod"] for s in steps if s["do"] == "mod"],
+                                      "tag": tag, "history": hist}}
+
     def cases(self, rng, tier, budget):
         T = self.T()
         n = 0
         i = 0
-        quota = {"nl": 20, "f19": 10 ** 9}
+        quota = {"nl": 20}
         # targeted stream: rules of the catalogue that the regenerated validator inventory no longer contains verbatim
         try:
             gen = json.load(open(checklib.os.path.join(checklib.LEAN, "generated.json")))
@@ -160,94 +193,129 @@ class C06(Prop):
                 if mod is None:
                     continue
                 n += 1
-                yield {"op": "c06", "args": {"fmt": fmt, "spec": spec, "mods": [mod], "tag": tag}}
+                yield self.mk(fmt, spec, [{"do": "mod", "mod": mod}, {"do": "dumps"}], tag, "fresh")
+        D, L = {"do": "dumps"}, {"do": "reload"}
         while n < budget:
             fmt = V.FORMATS[i % len(V.FORMATS)]
             k = i // len(V.FORMATS)
             i += 1
             if k % 4 == 0:
-                # the converse stream: `k // 4` walks through every enumeration value
+                # the converse stream: `k // 4` walks through every enumeration value; written once, twice, or written, read back and written
                 spec = V.gen(rng, fmt, k // 4)
                 n += 1
-                yield {"op": "c06", "args": {"fmt": fmt, "spec": spec, "mods": [], "tag": "valid"}}
+                hist, steps = [("once", [D]), ("twice", [D, D]), ("reloaded", [D, L, D])][(k // 4) % 3]
+                yield self.mk(fmt, spec, steps, "valid", hist)
                 continue
             spec = V.gen(rng, fmt, k)
             mod, tag = propose(fmt, spec, rng, T)
             if mod is None:
                 continue
-            # the two known findings are met a bounded number of times per run (checklib stops consuming after 50 failures, known or not)
+            # the known finding F15 is met a bounded number of times per run
             v = mod.get("value")
-            kf = "nl" if (isinstance(v, str) and v.endswith("\n")) else ("f19" if ((mod.get("set") == "uid" or mod.get("setitem") == "images") and not isinstance(v, (str, dict))) else None)
-            if kf is not None:
-                quota[kf] -= 1
-                if quota[kf] < 0:
+            if isinstance(v, str) and v.endswith("\n"):
+                quota["nl"] -= 1
+                if quota["nl"] < 0:
                     continue
+            hist, steps = self.history(rng, fmt, spec, mod, T)
             n += 1
-            yield {"op": "c06", "args": {"fmt": fmt, "spec": spec, "mods": [mod], "tag": tag}}
+            yield self.mk(fmt, spec, steps, tag, hist)
 
     # ------------------------------------------------------------------ real side
-    def run_real(self, case):
-        a = case["args"]
-        fmt, T = a["fmt"], self.T()
-        # object A: the dump itself
-        try:
-            objA = V.build(fmt, a["spec"])
-            for m in a["mods"]:
-                V.apply_mod(fmt, objA, m)
-        except Exception as e:   # noqa
-            return {"dumps": "BUILD:" + type(e).__name__, "parts": [], "expect_reject": False, "only_nl": False, "snaps": [], "obj": None}
-        objB = V.build(fmt, a["spec"])
-        for m in a["mods"]:
-            V.apply_mod(fmt, objB, m)
-        model_obj = V.snap_obj(fmt, objB)
-        r = V.outcome(V.dumps, fmt, objA)
-        dumps = "ok" if "ok" in r else r["err"]
-        if fmt in ("composeinfo", "images", "rpms", "modules", "extra_files"):
-            objB.header.set_current_version()
+    def observe(self, fmt, obj, T):
+        """everything C06 looks at, at one `dumps()` call: the written parts as the spec sees them (before the call), what each
+        part's own validate() says, the outcome of the call"""
+        model_obj = V.snap_obj(fmt, obj)
         parts, snaps = [], []
         strict_any = lenient_any = False
-        partmap = dict(V.all_parts(fmt, objB))
-        for pth, cls, snap in written_snapshots(fmt, objB):
+        partmap = dict(V.all_parts(fmt, obj))
+        for pth, cls, snap in written_snapshots(fmt, obj):
             part = partmap[pth]
-            if cls == "composeinfo.Release" and pth != "release":
-                part.is_layered = True
+            # what the writer does to the part before validating it, done and undone around the part's own validate()
+            restore = None
+            if cls == "common.Header":
+                old = part.version; part.set_current_version()
+                restore = lambda part=part, old=old: setattr(part, "version", old)
+            elif cls == "composeinfo.Release" and pth != "release":
+                old = part.is_layered; part.is_layered = True
+                restore = lambda part=part, old=old: setattr(part, "is_layered", old)
             vr = V.outcome(part.validate)
+            if restore:
+                restore()
             viol = R.violated(cls, snap, T)
             lviol = R.violated(cls, snap, T, lenient=True)
             strict_any = strict_any or bool(viol)
             lenient_any = lenient_any or bool(lviol)
             parts.append([pth, cls, "ok" if "ok" in vr else vr["err"], viol, lviol])
             snaps.append(snap)
-        return {"dumps": dumps, "msg": r.get("msg"), "parts": parts, "expect_reject": strict_any, "only_nl": strict_any and not lenient_any,
-                "snaps": snaps, "obj": model_obj}
+        r = V.outcome(V.dumps, fmt, obj)
+        return {"dumps": "ok" if "ok" in r else r["err"], "text": r.get("ok"), "parts": parts, "expect_reject": strict_any,
+                "only_nl": strict_any and not lenient_any, "snaps": snaps, "obj": model_obj}
+
+    def run_real(self, case):
+        a = case["args"]
+        fmt, T = a["fmt"], self.T()
+        steps = a.get("steps") or ([{"do": "mod", "mod": m} for m in a.get("mods", [])] + [{"do": "dumps"}])
+        obs, undo, text = [], [], None
+        try:
+            obj = V.build(fmt, a["spec"])
+        except Exception as e:   # noqa
+            return {"obs": [], "build": "BUILD:" + type(e).__name__}
+        for idx, st in enumerate(steps):
+            try:
+                if st["do"] == "mod":
+                    undo.append(V.apply_mod(fmt, obj, st["mod"]))
+                elif st["do"] == "undo":
+                    undo.pop()()
+                elif st["do"] == "reload":
+                    if text is None:
+                        break
+                    obj = V.new(fmt); obj.loads(text); undo = []
+                elif st["do"] == "dumps":
+                    o = self.observe(fmt, obj, T)
+                    o["step"] = idx
+                    if o["text"] is not None:
+                        text = o["text"]
+                    obs.append(o)
+            except Exception as e:   # noqa: a step of the scenario itself is not applicable (e.g. path gone after a reload)
+                obs.append({"step": idx, "dumps": "STEP:" + type(e).__name__, "parts": [], "expect_reject": False, "only_nl": False, "snaps": [], "obj": None})
+                break
+        return {"obs": obs}
 
     def real(self, case):
         full = self.run_real(case)
         self._cache[checklib.key_of(case)] = full
-        return {"dumps": full["dumps"], "parts": [[p[1], p[2], p[4]] for p in full["parts"]], "expect_reject": full["expect_reject"], "only_nl": full["only_nl"]}
+        return {"obs": [{"step": o["step"], "dumps": o["dumps"], "parts": [[p[1], p[2], p[4]] for p in o["parts"]],
+                         "expect_reject": o["expect_reject"], "only_nl": o["only_nl"]} for o in full["obs"]]}
 
-    # ------------------------------------------------------------------ model side
+    # ------------------------------------------------------------------ model side (stateless: one walk per dumps() call of the sequence)
     def model_requests(self, case):
         full = self._cache.get(checklib.key_of(case)) or self.run_real(case)
-        if full["obj"] is None:
-            return []
-        reqs = [{"op": "c06_dumps", "args": {"fmt": case["args"]["fmt"], "obj": full["obj"]}}]
-        for (pth, cls, _, _, _), snap in zip(full["parts"], full["snaps"]):
-            ms = V.to_model(snap)
-            reqs.append({"op": "c06_validate", "args": {"cls": cls, "obj": ms}})
-            reqs.append({"op": "c06_spec", "args": {"cls": cls, "obj": ms}})
+        reqs = []
+        for o in full["obs"]:
+            if o["obj"] is None:
+                continue
+            reqs.append({"op": "c06_dumps", "args": {"fmt": case["args"]["fmt"], "obj": o["obj"]}})
+            for (pth, cls, _, _, _), snap in zip(o["parts"], o["snaps"]):
+                ms = V.to_model(snap)
+                reqs.append({"op": "c06_validate", "args": {"cls": cls, "obj": ms}})
+                reqs.append({"op": "c06_spec", "args": {"cls": cls, "obj": ms}})
         return reqs
 
     def model_result(self, case, outs):
-        d = outs[0]
-        dumps = "ok" if "ok" in d.get("out", {}) else d.get("out", {}).get("err", "?")
-        parts = []
-        for i in range(1, len(outs), 2):
-            v, s = outs[i], outs[i + 1]
-            parts.append(["ok" if "ok" in v else v.get("err"), s])
-        return {"dumps": dumps, "parts": parts, "model_parts": sorted([p["cls"], bool(p["violated"])] for p in d.get("parts", []))}
+        res, i = [], 0
+        while i < len(outs):
+            d = outs[i]
+            i += 1
+            parts = []
+            while i < len(outs) and not (isinstance(outs[i], dict) and "out" in outs[i]):
+                v, s = outs[i], outs[i + 1]
+                parts.append(["ok" if "ok" in v else v.get("err"), s])
+                i += 2
+            res.append({"dumps": "ok" if "ok" in d.get("out", {}) else d.get("out", {}).get("err", "?"), "parts": parts,
+                        "model_parts": sorted([p["cls"], bool(p["violated"])] for p in d.get("parts", []))})
+        return res
 
-    def compare(self, case, real_out, model_out):
+    def compare_one(self, real_out, model_out):
         diffs = {}
         # `Other` = the model does not know (e.g. `"%s" % <foreign object>`): outside its domain, not compared
         if model_out["dumps"] == "Other" or any(mv == "Other" for mv, _ in model_out["parts"]):
@@ -266,35 +334,38 @@ class C06(Prop):
         mine = sorted([cls, bool(lviol)] for cls, _, lviol in rp)
         if mine != model_out["model_parts"]:
             diffs["written_parts"] = [mine, model_out["model_parts"]]
-        if diffs:
-            return {"real": diffs, "model": "see real (pairs are [real, model])"}
+        return diffs or None
+
+    def compare(self, case, real_out, model_out):
+        robs = [o for o in real_out["obs"] if not o["dumps"].startswith("STEP:")]
+        if len(robs) != len(model_out):
+            return {"real": {"n_dumps": len(robs)}, "model": {"n_dumps": len(model_out)}}
+        for o, m in zip(robs, model_out):
+            d = self.compare_one(o, m)
+            if d:
+                d["step"] = o["step"]
+                return {"real": d, "model": "see real (pairs are [real, model])"}
         return None
 
-    # ------------------------------------------------------------------ oracle
-    def f19_kind(self, case):
-        for m in case["args"]["mods"]:
-            v = m.get("value")
-            if m.get("set") == "uid" and not isinstance(v, str):
-                return "uid-not-str"
-            if m.get("setitem") == "images" and len(m.get("keys", [])) == 2 and not isinstance(v, str):
-                return "treeinfo-image-path-not-str"
-        return None
-
+    # ------------------------------------------------------------------ oracle (at EVERY dumps() of the sequence)
     def oracle(self, case, real_out):
-        d = real_out["dumps"]
-        if d.startswith("BUILD:"):
-            return None
-        mods = case["args"]["mods"]
-        if real_out["expect_reject"]:
-            if d == "ok":
-                return {"observed": {"dumps": "ok", "only_trailing_newline": bool(real_out["only_nl"]), "mods": mods},
-                        "required": "dumps() raises TypeError or ValueError: a written part breaks a catalogue rule", "kind": "accepted-invalid"}
-            if d not in ("TypeError", "ValueError"):
-                return {"observed": {"dumps": d, "f19": self.f19_kind(case), "mods": mods},
-                        "required": "dumps() raises TypeError or ValueError (not another class)", "kind": "wrong-class"}
-            return None
-        if d != "ok":
-            return {"observed": {"dumps": d, "mods": mods}, "required": "every written part satisfies the catalogue: dumps() returns text", "kind": "refused-valid"}
+        a = case["args"]
+        steps = a.get("steps")
+        for o in real_out["obs"]:
+            d = o["dumps"]
+            if d.startswith("STEP:"):
+                return None
+            seq = {"history": a.get("history"), "failing_step": o["step"], "steps": steps}
+            if o["expect_reject"]:
+                if d == "ok":
+                    return {"observed": dict(seq, dumps="ok", only_trailing_newline=bool(o["only_nl"])),
+                            "required": "this dumps() raises TypeError or ValueError: a written part breaks a catalogue rule at that point of the sequence",
+                            "kind": "accepted-invalid"}
+                if d not in ("TypeError", "ValueError"):
+                    return {"observed": dict(seq, dumps=d), "required": "dumps() raises TypeError or ValueError (not another class)", "kind": "wrong-class"}
+            elif d != "ok":
+                return {"observed": dict(seq, dumps=d), "required": "every written part satisfies the catalogue at that point of the sequence: dumps() returns text",
+                        "kind": "refused-valid"}
         return None
 
     def nontrivial(self, case, real_out):
@@ -302,8 +373,10 @@ class C06(Prop):
 
     def stats(self, case, real_out, dist):
         a = case["args"]
-        k = "%s/%s/%s" % (a["fmt"], "valid" if not a["mods"] else "corrupt", real_out["dumps"])
+        k = "%s/%s/%s" % (a["fmt"], "valid" if not a["mods"] else "corrupt", ",".join(o["dumps"] for o in real_out["obs"]))
         dist[k] = dist.get(k, 0) + 1
+        h = dist.setdefault("histories", {})
+        h[a.get("history", "fresh")] = h.get(a.get("history", "fresh"), 0) + 1
         if a["mods"]:
             cls = a["tag"].split(":")[0]
             dist.setdefault("corrupted_class", {})
@@ -334,6 +407,8 @@ class C06(Prop):
         out = []
         s = a["spec"]
         used = set(m["path"] for m in a["mods"])
+        if any(st["do"] == "reload" for st in a.get("steps", [])):
+            return []
 
         def emit(s2):
             c = copy.deepcopy(case); c["args"]["spec"] = s2; out.append(c)
